@@ -68,7 +68,10 @@ ExtraDocs == {Obj(<< <<kA, u1>>, <<kB, sab>>, <<ka, Null>> >>), Obj(<< <<kAb, u1
               Obj(<< <<kaa, u1>>, <<kb, u256>> >>), Obj(<< <<kaa, Arr(<<u1>>)>>, <<kab, Null>>, <<kb, sab>> >>),
               Obj(<< <<kE, Null>>, <<kEb, True>> >>), Obj(<< <<ka, Null>>, <<kE, False>>, <<kEb, sE>> >>),
               Arr(<<u1, f1, i1, u1>>), Arr(<<f0, fm0, u0>>), Arr(<<Arr(<<u1>>), Arr(<<f1>>), Arr(<<u1>>)>>),
-              Obj(<< <<ka, Arr(<<u1, u2>>)>>, <<kb, Obj(<< <<ka, sa>> >>)>> >>)}
+              Obj(<< <<ka, Arr(<<u1, u2>>)>>, <<kb, Obj(<< <<ka, sa>> >>)>> >>),
+              \* smallest nested containers (one payload-free element; the only string of the document inside them)
+              Arr(<<u1, Arr(<<sEmpty>>)>>), Obj(<< <<ka, Arr(<<sEmpty>>)>> >>), Arr(<<Arr(<<Arr(<<sEmpty>>)>>)>>),
+              Arr(<<Arr(<<True>>), Obj(<< <<kEmpty, Null>> >>), Arr(<<Null>>)>>), Obj(<< <<kb, Obj(<< <<kEmpty, sEmpty>> >>)>> >>)}
 
 \* level-1 documents: containers of atoms
 L1(atoms, keys, ovals, w) == Arrays(atoms, w) \cup Objects(keys, ovals, w)
